@@ -1,16 +1,18 @@
 #!/bin/bash
-# usage: seedcheck.sh <patch.diff> [property ids...]  -- applies the patch to /repo, runs the quick checks, reverts.
+# usage: seedcheck.sh <patch.diff> [property ids...]
+# Applies the patch in a private scratch worktree of /repo HEAD and runs the quick checks against it
+# (I2NSA_REPO points the engine at the scratch tree; /repo itself is never touched), then removes the worktree.
 set -u
 patch="$1"; shift
 props="${*:-}"
-cd /repo || exit 2
-if ! git diff --quiet -- avocado_i2n; then echo "repo dirty"; exit 2; fi
-git apply "$patch" || { echo "patch does not apply"; exit 2; }
-trap 'git -C /repo checkout -- avocado_i2n' EXIT
+wt=/tmp/wt/seedcheck_$$
+git -C /repo worktree add -q --detach $wt HEAD || exit 2
+trap 'git -C /repo worktree remove --force '$wt' 2>/dev/null' EXIT
+( cd $wt && git apply "$patch" ) || { echo "patch does not apply"; exit 2; }
 cd /verif
 if [ -z "$props" ]; then props=$(ls i2nsa/props/c[0-9][0-9].py | sed 's/.*\/c\([0-9]*\).py/C\1/'); fi
 for p in $props; do
-  out=$(I2NSA_NO_EVIDENCE=1 /venv/bin/python -m i2nsa check $p 2>&1); rc=$?
+  out=$(I2NSA_REPO=$wt I2NSA_NO_EVIDENCE=1 /venv/bin/python -m i2nsa check $p 2>&1); rc=$?
   echo "== $p rc=$rc"
   echo "$out" | grep -E "^\s+broken:|ANALYSIS-ERROR" | cut -c1-400
 done
